@@ -47,7 +47,8 @@ ASSUME = ["resolve_syntatic_sugar is the identity on the grammar (no comprehensi
           "a call whose callee is a subscript of an attribute is in the grammar only when the attribute's object is untyped "
           "(residual of F21: `{'a': e.x}.a[0](1)` and `(1).x[0](2)` still raise AttributeError, pinned for user classes by "
           "test_index_callback_bad_prop)"]
-RULE = ("corpus of probe expressions; all expressions of the C10 grammar up to size N over a pool with ast-meaningful names "
+RULE = ("[two passes: fresh process state, and again after typed queries over the same parameter-name pool ran through every operator in the same process, with bodies whose free names are those parameter names] " +
+        "corpus of probe expressions; all expressions of the C10 grammar up to size N over a pool with ast-meaningful names "
         "(seeded sample in the quick tier); seeded random expressions to depth 5; each through Select, SelectMany and Where, "
         "as source string and as ast object; a corpus of shadowing patterns plus a seeded sample of the generated lambdas also as "
         "Python callables (nested lambdas re-using the outer parameter name with the outer parameter used afterwards, module "
@@ -369,7 +370,7 @@ def callable_cases(ctx, cs):
     return todo
 
 
-def check_case(ctx, m, w, case, ans, record=True):
+def check_case(ctx, m, w, case, ans, record=True, history=None):
     op, ref, s = case
     item = m.ev("Any")
     if s is None:
@@ -388,9 +389,13 @@ def check_case(ctx, m, w, case, ans, record=True):
     # --- oracle: the property, on the implementation's output
     ok, what = passthrough(op, ref, d, impl)
     wit = {"op": op, "lambda_dump": d, "lambda": ast.unparse(ref), "form": "str" if s is not None else "ast"}
+    if history:
+        wit["history"] = history
+        ctx.count("history", history)
+        what = what + " [after typed queries with the same parameter names ran in this process]" if not ok else what
     if not ok:
         ctx.fail("failing-input", "%s(%s): %s" % (op, ast.unparse(ref), what), dict(wit, oracle="passthrough"),
-                 key=core.digest({"p": ID, "op": op, "e": d}))
+                 key=core.digest({"p": ID, "op": op, "e": d, "h": history or ""}))
     if not tc.same_outcome(impl, mod):
         ctx.corr_disagreements += 1
         if ok:
@@ -399,6 +404,55 @@ def check_case(ctx, m, w, case, ans, record=True):
                      % (op, ast.unparse(ref), tc.show(mod)[:200], tc.show(impl)[:200]),
                      dict(wit, correspondence="stream_op", model=ans[:300], impl=tc.show(impl)[:300]))
     return impl, mod
+
+
+
+# ------------------------------------------------------------------ histories: typed queries first
+
+POLLUTE_NAMES = [n for n in dict.fromkeys(PARAMS + POOL + FUNCS + ["evt", "ev", "jet"]) if n.isidentifier()]
+POLLUTE = {"classes": [{"name": "Pol",
+                        "methods": [{"name": n, "params": [("d", "7")], "ret": "float"} for n in POOL if n.isidentifier()]
+                        + [{"name": "items", "params": [("k", "'all'")], "ret": "Iterable[Pol]"}]}],
+           "functions": [], "callbacks": {}}
+
+
+def typed_prelude(ctx):
+    """Typed queries through every operator, with every name of the generator's pool as the lambda parameter, in this
+    process: whatever they leave behind must not reach a later untyped query (the property quantifies over all
+    programs, and a program can build typed and untyped queries one after the other)."""
+    pm = tc.Model(POLLUTE)
+    item = pm.ev("Pol")
+    n = 0
+    for name in POLLUTE_NAMES:
+        for op, body in (("Select", "%s.pt()"), ("Where", "%s.pt() > 1"), ("SelectMany", "%s.items()"),
+                         ("Select", "%s.items().Select(lambda q: q.x())")):
+            src = "lambda %s: %s" % (name, body % name)
+            for form in ("str", "ast"):
+                r = tc.run_impl_str(pm, op, item, src) if form == "str" else tc.run_impl(pm, op, item, ast.parse(src).body[0].value)
+                n += 1
+                if r[0] != "ok":
+                    raise core.MachineryError("typed prelude query failed: %s -> %s" % (src, tc.show(r)[:200]))
+    ctx.notes.append("history family: %d typed queries over %d parameter names ran before the second untyped pass" % (n, len(POLLUTE_NAMES)))
+
+
+def history_cases(ctx, fresh):
+    """untyped lambdas whose free names are the typed queries' parameter names, plus a re-run of fresh cases"""
+    out = []
+    for name in POLLUTE_NAMES:
+        for op, src in (("Select", "lambda e: %s.pt()"), ("Select", "lambda e: (e.pt, %s.value(), {'a b': %s.x()})"),
+                        ("Where", "lambda e: e.pt > %s.pt()"), ("Where", "lambda e: e.a and not %s.x() < e.b"),
+                        ("SelectMany", "lambda e: %s.items()"),
+                        ("Select", "lambda e: e.jets.Select(lambda q: q.pt() + %s.pt())")):
+            src = src.replace("%s", name)
+            if name == "e":
+                continue
+            l = ast.parse(src).body[0].value
+            out.append(normalise((op, l, "str")))
+            out.append(normalise((op, l, "ast")))
+    k = ctx.budget(1200, 20000)
+    pool = [c for c in fresh if not isinstance(c[1].body, (ast.Name, ast.Constant))]
+    out += pool if len(pool) <= k else ctx.rng.sample(pool, k)
+    return out
 
 
 def run(ctx):
@@ -412,6 +466,13 @@ def run(ctx):
         if len(ctx.samples) < 6 and impl[0] != "ok":
             ctx.sample({"op": c[0], "input": ast.unparse(c[1]), "impl": tc.show(impl)[:160], "model": tc.show(mod)[:160]})
     run_callables(ctx, m, callable_cases(ctx, cs))
+    # second pass, after typed queries that used the same names ran in this process
+    typed_prelude(ctx)
+    m = tc.Model(tc.EMPTY)
+    hs = history_cases(ctx, cs)
+    hanswers = ctx.driver.call("op", [tc.model_requests(w, op, any_sx, ref) for op, ref, s in hs])
+    for c, ans in zip(hs, hanswers):
+        check_case(ctx, m, w, c, ans, history="after-typed-queries")
     # default functions of the model's table == the live registry
     got = ctx.driver.call("ftdefault", [[]])[0]
     from func_adl import type_based_replacement as tbr
@@ -443,4 +504,7 @@ def replay(ctx, wit):
     s = ast.unparse(ref) if wit.get("form") == "str" else None
     c = (wit["op"], ref, s)
     ans = ctx.driver.call("op", [tc.model_requests(w, c[0], m.ty_sx(m.ev("Any")), ref)])[0]
-    check_case(ctx, m, w, c, ans)
+    if wit.get("history"):
+        typed_prelude(ctx)
+        m = tc.Model(tc.EMPTY)
+    check_case(ctx, m, w, c, ans, history=wit.get("history"))
